@@ -1,10 +1,400 @@
-"""C14: structural clauses (see DESIGN.md section 4)."""
+"""C14 batching loses nothing: loader seed chain (G1), len prediction (G12/G16), item shape
+(G24), bucketing typestate (G10), lossless collation (G16/G13/G2), no RNG in collation (G11)."""
 from __future__ import annotations
 
-from rules import fwd as R_fwd
+import ast
+from typing import List, Optional, Set
+
+from rules import pure as R_pure
+from sa.astutil import call_name, guards_of, kwarg, parent_map, u
+from sa.defuse import ReachingDefs
+from sa.model import AnalysisError, ClassInfo, own_calls, own_nodes
+from sa.norm import Normalizer, ceil_div, padd, pstr
+from sa.paths import PathEnumerator
+from sa.resolve import bind_args
 from .common import Ctx, plumbing
+
+MOD = "_dataloaders"
+COLLATE = {"spect_seq_to_batch": "x[0].size(0)", "lang_seq_to_batch": None, "context_window_seq_to_batch": None}
 
 
 def run(ctx: Ctx):
-    plumbing(ctx, 'S1')
-    return dict(explanation='plumbing clauses only (work in progress)', decided=['S1'], not_decided=[])
+    col, pkg, res = ctx.col, ctx.pkg, ctx.res
+    rel = pkg.module(MOD).relname
+
+    # ---- S1 no randomness in collation / bucketing ------------------------------------------------------
+    funcs = [pkg.func(f"{MOD}::{n}") for n in COLLATE] + [pkg.func(f"{MOD}::BucketBatchSampler.__iter__"),
+                                                         pkg.func(f"{MOD}::_get_bucket_batch_sampler_params"),
+                                                         pkg.func(f"{MOD}::_get_batch_sampler_len")]
+    for f in funcs:
+        rng = R_pure.global_rng_calls(f) + [(c, "local generator") for c, _ in R_pure.local_generators(f)]
+        col.ob("G11", "S1", f"{rel}::{f.qualname}::no-rng", not rng,
+               f"`{rng[0][1] if rng else ''}` draws random numbers while batching: batches would differ for identical "
+               f"(seed, epoch)", rel, rng[0][0].lineno if rng else f.line)
+
+    # ---- S2 length prediction ---------------------------------------------------------------------------------
+    ln = pkg.func(f"{MOD}::_get_batch_sampler_len")
+    where = f"{rel}::{ln.qualname}"
+    rd = ReachingDefs(ln.node)
+    iters = []
+    for n in own_nodes(ln.node):
+        if isinstance(n, ast.comprehension):
+            iters.append(n.iter)
+        elif isinstance(n, ast.For):
+            iters.append(n.iter)
+    samp_iters = [it for it in iters if "sampler" in u(it)]
+    col.floor("len_sampler_iterations", len(samp_iters), 1)
+    for it in samp_iters:
+        ok = isinstance(it, ast.Call) and isinstance(it.func, ast.Attribute) and it.func.attr == "get_samples_for_epoch" \
+            and len(it.args) == 1 and u(it.args[0]) == u(it.func.value) + ".epoch"
+        col.ob("G16", "S2", f"{where}::counts-the-epoch-iter-will-consume", ok,
+               f"the length is counted over `{u(it)}`; it must be <sampler>.get_samples_for_epoch(<sampler>.epoch) - "
+               f"iterating the sampler itself advances its epoch (len() would change what the loader yields), any "
+               f"other epoch counts a different order", rel, it.lineno, sample=u(it))
+    # no call in the length computation may mutate the sampler: no attribute stores, no iter()/next()/list() on it
+    muts = [n for n in own_nodes(ln.node) if isinstance(n, ast.Attribute) and isinstance(n.ctx, ast.Store)]
+    col.ob("G16", "S2", f"{where}::pure", not muts, f"`{u(muts[0]) if muts else ''}` is assigned while computing len()",
+           rel, muts[0].lineno if muts else ln.line)
+    pm = parent_map(ln.node)
+    incs = [n for n in own_nodes(ln.node) if isinstance(n, ast.AugAssign) and isinstance(n.op, ast.Add)]
+    got = {}
+    for n in incs:
+        gs = guards_of(pm, n)
+        flag = []
+        for t, pol in gs:
+            if "drop_incomplete" in u(t):
+                while isinstance(t, ast.UnaryOp) and isinstance(t.op, ast.Not):
+                    t, pol = t.operand, not pol
+                flag.append((u(t), pol))
+        if not flag:
+            continue
+        pol = flag[-1][1]
+        v = n.value
+        if isinstance(v, ast.BinOp) and isinstance(v.op, ast.FloorDiv):
+            cd = ceil_div(v)
+            nz = Normalizer()
+            if u(v.left) == "count" or (isinstance(v.left, ast.Name)):
+                kind = "floor"
+                if not isinstance(v.left, ast.Name):
+                    kind = "?"
+            if not isinstance(v.left, ast.Name):
+                x, d = cd
+                kind = "ceil" if len(x) == 1 and not padd(d, nz.poly(v.right), -1) and all(len(k) == 1 for k in x) else "?"
+            got[pol] = kind
+    col.ob("G12", "S2", f"{where}::floor-when-dropping-ceil-otherwise", got == {True: "floor", False: "ceil"},
+           f"batches per bucket are counted as {got} (expected count // size when incomplete batches are dropped, "
+           f"ceil(count / size) otherwise)", rel, ln.line, sample={str(k): v for k, v in got.items()})
+    # the loaders cache __len__ from this function over their own batch sampler
+    n_len = 0
+    for cname in ("LangDataLoader", "SpectDataLoader"):
+        m = pkg.func(f"{MOD}::{cname}.__len__")
+        calls = [c for c in own_calls(m.node) if call_name(c) == "_get_batch_sampler_len"]
+        n_len += len(calls)
+        col.ob("G16", "S2", f"{rel}::{cname}.__len__::uses-own-batch-sampler",
+               len(calls) == 1 and [u(a) for a in calls[0].args] == ["self.batch_sampler"],
+               f"{cname}.__len__ does not count its own batch sampler", rel, m.line)
+    col.floor("loader_len_sites", n_len, 2)
+
+    # ---- S2' item shape (G24) ------------------------------------------------------------------------------------
+    bp = pkg.func(f"{MOD}::_get_bucket_batch_sampler_params")
+    _g24(ctx, bp, rel)
+
+    # ---- S3 bucketing typestate ------------------------------------------------------------------------------------
+    _s3(ctx, rel)
+
+    # ---- S4 collation ------------------------------------------------------------------------------------------------
+    for name in COLLATE:
+        _collate(ctx, pkg.func(f"{MOD}::{name}"), rel)
+    plumbing(ctx, "S1")
+    return dict(
+        explanation=(
+            "Decides for C14: (S1) seed/epoch/flags reach the same-named parameters through every loader constructor "
+            "chain [F3, F4 repaired] and collation/bucketing draw no random numbers; (S2) the length prediction counts "
+            "the very stream __iter__ will consume (get_samples_for_epoch(sampler.epoch), never the sampler itself), "
+            "with floor/ceil per the drop flag; (S2') the length used for bucketing is taken from an item in every shape "
+            "the data set can yield [F17 repaired]; (S3) BucketBatchSampler.__iter__ appends every index exactly once to "
+            "its own bucket's list, removes a yielded list on the same path, yields leftovers iff incomplete batches are "
+            "kept; (S4) collation computes sizes from the un-padded sequences, sorts only the whole tuple list before "
+            "unzipping, pads with 0 / INDEX_PAD_VALUE and returns ids from the same (sorted) list. NOT decided: bucket "
+            "purity over length ties, quantile boundaries, extract_window values."),
+        decided=["S1", "S2", "S2'", "S3", "S4"],
+        not_decided=["bucket purity for ties at boundaries", "quantile boundaries", "context window values"],
+        assumptions=["torch pad_sequence / DataLoader semantics"],
+    )
+
+
+def _item_shapes(pkg, res, ci: ClassInfo) -> List[Optional[int]]:
+    """Tuple arities (None = bare value) of what ci.__getitem__ may return, following self-calls."""
+    out: List[Optional[int]] = []
+    seen = set()
+
+    def go(f, depth=0):
+        if f in seen or depth > 4:
+            return
+        seen.add(f)
+        for n in own_nodes(f.node):
+            if isinstance(n, ast.Return) and n.value is not None:
+                v = n.value
+                if isinstance(v, ast.Tuple):
+                    out.append(len(v.elts))
+                elif isinstance(v, ast.Call) and isinstance(v.func, ast.Attribute) and u(v.func.value) == "self":
+                    for g in res.find_method(ci, v.func.attr):
+                        go(g, depth + 1)
+                else:
+                    out.append(None)
+
+    for g in res.find_method(ci, "__getitem__"):
+        go(g)
+    return out
+
+
+def _g24(ctx, consumer, rel):
+    col, pkg, res = ctx.col, ctx.pkg, ctx.res
+    where = f"{rel}::{consumer.qualname}"
+    # constant subscripts of the enumerated data-set items
+    item_vars = set()
+    subs = []
+    for n in own_nodes(consumer.node):
+        if isinstance(n, ast.comprehension) and isinstance(n.iter, ast.Call) and call_name(n.iter) == "enumerate" \
+                and n.iter.args and u(n.iter.args[0]) == "dataset" and isinstance(n.target, ast.Tuple):
+            item_vars.add(n.target.elts[1].id)
+    for n in own_nodes(consumer.node):
+        if isinstance(n, ast.Subscript) and isinstance(n.value, ast.Name) and n.value.id in item_vars \
+                and isinstance(n.slice, ast.Constant) and isinstance(n.slice.value, int):
+            # guarded by an isinstance(x, tuple) test (IfExp / if)?
+            guarded = False
+            pm = parent_map(consumer.node)
+            p = pm.get(n)
+            while p is not None:
+                if isinstance(p, (ast.IfExp, ast.If)) and "isinstance" in u(p.test) and n.value.id in u(p.test):
+                    guarded = True
+                p = pm.get(p)
+            subs.append((n, guarded))
+    if not item_vars:
+        raise AnalysisError("C14: the enumerate(dataset) consumer in _get_bucket_batch_sampler_params was not found")
+    # producers: the data-set classes reaching the call sites
+    n_sites = 0
+    for f in pkg.all_functions():
+        if f.module.name != MOD:
+            continue
+        for c in own_calls(f.node):
+            if call_name(c) != consumer.name or not c.args:
+                continue
+            n_sites += 1
+            rd = ReachingDefs(f.node)
+            der = rd.derives(c.args[0])
+            classes = set()
+            for cc in der.calls():
+                r = res.resolve_expr(f.module, cc.func) if isinstance(cc.func, (ast.Name, ast.Attribute)) else None
+                if isinstance(r, ClassInfo):
+                    classes.add(r)
+            if not classes:
+                raise AnalysisError(f"C14: cannot resolve the data-set class at {f.key}:{c.lineno}")
+            for ci in sorted(classes, key=lambda k: k.name):
+                shapes = _item_shapes(pkg, res, ci)
+                for sub, guarded in subs:
+                    need = sub.slice.value + 1
+                    bad = [s for s in shapes if s is None or s < need]
+                    ok = guarded or not bad
+                    col.ob("G24", "S2'", f"{where}::{u(sub)}<-items-of({ci.name})", ok,
+                           f"`{u(sub)}` assumes tuple items, but {ci.name}.__getitem__ can return "
+                           f"{'a bare tensor' if None in bad else 'a shorter tuple'} (shapes {shapes}): the bucketing "
+                           f"length is then taken from the first token/row instead of the sequence (IndexError or "
+                           f"mixed length classes)", rel, sub.lineno,
+                           sample=dict(consumer=u(sub), producer=ci.name, shapes=[s if s is not None else "bare" for s in shapes]))
+    ctx.col.floor("bucket_param_call_sites", n_sites, 2)
+
+
+def _s3(ctx, rel):
+    col, pkg = ctx.col, ctx.pkg
+    f = pkg.func(f"{MOD}::BucketBatchSampler.__iter__")
+    where = f"{rel}::{f.qualname}"
+    rd = ReachingDefs(f.node)
+    loops = [n for n in f.node.body if isinstance(n, ast.For)]
+    if not loops or u(loops[0].iter) != "self.sampler":
+        raise AnalysisError("C14: BucketBatchSampler.__iter__ main loop over self.sampler not found")
+    loop = loops[0]
+    idx = loop.target.id if isinstance(loop.target, ast.Name) else None
+
+    def ev(n):
+        if isinstance(n, ast.Call) and isinstance(n.func, ast.Attribute) and n.func.attr == "append":
+            return f"APPEND({u(n.func.value)},{u(n.args[0]) if n.args else ''})"
+        if isinstance(n, ast.Yield):
+            return f"YIELD({u(n.value)})"
+        if isinstance(n, ast.Delete):
+            return "DEL(" + ",".join(u(t) for t in n.targets) + ")"
+        if isinstance(n, ast.Raise):
+            return "RAISE"
+        return None
+
+    paths = PathEnumerator(ev, keep_all_ifs=False, exc_edges=False).paths(loop.body)
+    col.floor("bucket_iter_body_paths", len(paths), 3)
+    # the list appended to is the table entry of the index's own bucket
+    appends = [c for c in own_calls(f.node) if isinstance(c.func, ast.Attribute) and c.func.attr == "append"]
+    okkey = False
+    for c in appends:
+        lst = c.func.value
+        if isinstance(lst, ast.Name):
+            for d in rd.defs_of(lst):
+                v = d.value
+                if isinstance(v, ast.Call) and isinstance(v.func, ast.Attribute) and v.func.attr == "setdefault" and v.args:
+                    key = v.args[0]
+                    cands = [key] + ([d2.value for d2 in rd.defs_of(key)] if isinstance(key, ast.Name) else [])
+                    okkey = len(cands) <= 2 and all(isinstance(x, ast.Subscript) and u(x.value) == "self.idx2bucket"
+                                                    and u(x.slice) == idx for x in cands[-1:]) \
+                        and [u(a) for a in c.args] == [idx]
+    col.ob("G10", "S3", f"{where}::append-to-own-bucket", okkey and len(appends) == 1,
+           "an index is not appended (exactly once) to the list stored under idx2bucket[idx]", rel, loop.lineno)
+    for p in paths:
+        labs = p.labels()
+        na = sum(1 for l in labs if l.startswith("APPEND"))
+        ny = [l for l in labs if l.startswith("YIELD")]
+        nd = [l for l in labs if l.startswith("DEL")]
+        if p.exit == "raise":
+            continue
+        ok = na == 1 and len(ny) == len(nd) and len(ny) <= 1
+        if ny:
+            ok = ok and labs.index(ny[0]) > [i for i, l in enumerate(labs) if l.startswith("APPEND")][0]
+        col.ob("G10", "S3", f"{where}::per-index-path[{'/'.join(l.split('(')[0] for l in labs)}]", ok,
+               f"per index the body does {labs}: expected one append, and a yielded batch removed from the table on "
+               f"the same path (else the index is yielded twice or lost)", rel, loop.lineno, sample=labs)
+    # full batch is yielded exactly when the size is reached
+    tests = [n.test for n in ast.walk(loop) if isinstance(n, ast.If) and any(isinstance(x, ast.Yield) for s in n.body for x in ast.walk(s))]
+    oksz = len(tests) == 1 and isinstance(tests[0], ast.Compare) and isinstance(tests[0].ops[0], ast.Eq) \
+        and any("len(" in u(x) for x in (tests[0].left, tests[0].comparators[0]))
+    col.ob("G10", "S3", f"{where}::yield-when-full", oksz,
+           f"a bucket's batch is yielded under `{u(tests[0]) if tests else None}`, expected size == len(batch)", rel,
+           loop.lineno)
+    # leftovers iff not drop_incomplete
+    tail = [n for n in f.node.body[f.node.body.index(loop) + 1:]]
+    okt = False
+    for n in tail:
+        if isinstance(n, ast.If) and u(n.test) == "not self.drop_incomplete" and not n.orelse:
+            ys = [x for x in ast.walk(n) if isinstance(x, ast.Yield)]
+            fors = [x for x in n.body if isinstance(x, ast.For)]
+            okt = len(ys) == 1 and len(fors) == 1 and "items()" in u(fors[0].iter) and isinstance(fors[0].target, ast.Tuple) \
+                and u(ys[0].value) == u(fors[0].target.elts[1])
+    stray = [x for n in tail for x in ast.walk(n) if isinstance(x, ast.Yield)]
+    col.ob("G10", "S3", f"{where}::leftovers-iff-kept", okt and len(stray) == 1,
+           "incomplete batches are not yielded exactly when drop_incomplete is false (each remaining list once)", rel,
+           f.line)
+
+
+def _collate(ctx, f, rel):
+    col = ctx.col
+    where = f"{rel}::{f.qualname}"
+    rd = ReachingDefs(f.node)
+    seqp = f.params[0].name
+    # sorting: only the whole item list, before the unzip
+    sorts = [c for c in own_calls(f.node) if call_name(c) == "sorted" or (isinstance(c.func, ast.Attribute) and c.func.attr == "sort")]
+    unzips = [n for n in own_nodes(f.node) if isinstance(n, ast.Call) and call_name(n) == "zip"
+              and n.args and isinstance(n.args[0], ast.Starred)]
+    col.floor(f"unzip_sites[{f.name}]", len(unzips), 1)
+    first_unzip = min(n.lineno for n in unzips)
+    for c in sorts:
+        arg = c.args[0] if call_name(c) == "sorted" and c.args else (c.func.value if isinstance(c.func, ast.Attribute) else None)
+        whole = isinstance(arg, ast.Name) and all(d.kind == "param" or (d.kind == "assign" and isinstance(d.value, ast.Call)
+                                                                      and call_name(d.value) == "sorted")
+                                                  for d in rd.defs_of(arg)) and arg.id == seqp
+        ok = whole and c.lineno < first_unzip
+        col.ob("G16", "S4", f"{where}::sort-whole-items-before-unzip@{u(arg)}", ok,
+               f"`{u(c)[:80]}` re-orders `{u(arg)}` - a single column / after the unzip - so the other columns "
+               f"(sizes, utterance ids) no longer line up with their rows", rel, c.lineno, sample=u(c)[:100])
+    col.count(f"sort_sites[{f.name}]", len(sorts))
+    # sizes from un-padded sequences
+    n_sz = 0
+    for n in own_nodes(f.node):
+        if isinstance(n, ast.Assign) and isinstance(n.targets[0], ast.Name) and n.targets[0].id.endswith("_sizes") \
+                and isinstance(n.value, ast.Call) and call_name(n.value) == "torch.tensor":
+            comp = n.value.args[0] if n.value.args else None
+            if isinstance(comp, ast.ListComp):
+                it = comp.generators[0].iter
+                n_sz += 1
+                padded = False
+                if isinstance(it, ast.Name):
+                    padded = any(isinstance(d.value, ast.Call) and "pad_sequence" in call_name(d.value) for d in rd.defs_of(it))
+                base = n.targets[0].id[: -len("_sizes")]
+                okname = isinstance(it, ast.Name) and it.id.startswith(base)
+                col.ob("G16", "S4", f"{where}::{n.targets[0].id}<-unpadded({u(it)})", not padded and okname,
+                       f"`{u(n)}` measures `{u(it)}`" + (" after padding (every size becomes the maximum)" if padded else
+                                                         f", not the {base} column"), rel, n.lineno, sample=u(n))
+    col.floor(f"size_sites[{f.name}]", n_sz, 1)
+    # pad values
+    for c in own_calls(f.node):
+        if call_name(c).endswith("pad_sequence"):
+            tgt = u(c.args[0]) if c.args else "?"
+            pv = kwarg(c, "padding_value")
+            want = "0" if tgt.startswith("feat") else "config.INDEX_PAD_VALUE"
+            col.ob("G13", "S4", f"{where}::pad({tgt})", pv is not None and u(pv) == want and
+                   (kwarg(c, "batch_first") is not None and u(kwarg(c, "batch_first")) == "batch_first"),
+                   f"`{tgt}` is padded with {u(pv) if pv is not None else 'the default'} (expected {want}) / ignores "
+                   f"batch_first", rel, c.lineno, sample=u(c)[:100])
+    # ids: returned last, from the unzip
+    if f.param("has_uttids") is not None:
+        pm = parent_map(f.node)
+        for n in own_nodes(f.node):
+            if isinstance(n, ast.Return) and isinstance(n.value, ast.Tuple):
+                gs = guards_of(pm, n)
+                with_ids = any(u(t) == "has_uttids" and pol for t, pol in gs)
+                last = n.value.elts[-1]
+                has = isinstance(last, ast.Call) and call_name(last) == "tuple"
+                ok = has == with_ids
+                if has:
+                    der = rd.derives(last)
+                    ok = ok and any(isinstance(cc, ast.Call) and call_name(cc) == "zip" for cc in der.calls())
+                col.ob("G2", "S4", f"{where}::return[{len(n.value.elts)}]::ids-last-iff-has_uttids", ok,
+                       f"`{u(n)[:90]}` returns utterance ids {'without' if not with_ids else 'under'} has_uttids / not "
+                       f"from the unzipped items", rel, n.lineno, sample=u(n)[:100])
+
+
+def _mutants():
+    from selftest.mutate import Mutant as M
+    D = "_dataloaders.py"
+    return [
+        M("len-iterates-sampler", D, "for i in batch_sampler.sampler.get_samples_for_epoch(batch_sampler.sampler.epoch))",
+          "for i in batch_sampler.sampler)", "counts-the-epoch-iter-will-consume"),
+        M("len-next-epoch", D, "batch_sampler.sampler.get_samples_for_epoch(batch_sampler.sampler.epoch)",
+          "batch_sampler.sampler.get_samples_for_epoch(batch_sampler.sampler.epoch + 1)", "counts-the-epoch"),
+        M("len-ceil-when-dropping", D, "len_ += count // size", "len_ += (count + size - 1) // size", "floor-when-dropping"),
+        M("len-flag-inverted", D, "if batch_sampler.drop_incomplete:\n    len_ += count // size", "if not batch_sampler.drop_incomplete:\n    len_ += count // size",
+          "floor-when-dropping"),
+        M("bucket-length-from-x0", D, "sorted((((x[0] if isinstance(x, tuple) else x).size(0), i) for i, x in enumerate(dataset)))",
+          "sorted(((x[0].size(0), i) for i, x in enumerate(dataset)))", "G24"),
+        M("sort-refs-only", D, "if has_uttids:\n    refs, uttids = zip(*seq)\nelse:\n    refs = seq\nref_sizes",
+          "if has_uttids:\n    refs, uttids = zip(*seq)\nelse:\n    refs = seq\nrefs = sorted(refs, key=lambda x: x.size(0), reverse=True)\nref_sizes", "sort-whole-items-before-unzip"),
+        M("sizes-after-padding", D, "feat_sizes = torch.tensor([x.size(0) for x in feats])\n    feats = torch.nn.utils.rnn.pad_sequence(feats, padding_value=0, batch_first=batch_first)",
+          "feats = torch.nn.utils.rnn.pad_sequence(feats, padding_value=0, batch_first=batch_first)\n    feat_sizes = torch.tensor([x.size(0) for x in feats])", "unpadded"),
+        M("ref-sizes-from-feats", D, "ref_sizes = torch.tensor([len(x) for x in refs])\n        refs = torch.nn.utils.rnn.pad_sequence(refs, padding_value=config.INDEX_PAD_VALUE, batch_first=batch_first)\n    else:\n        ref_sizes = refs = None\n    if has_alis:",
+          "ref_sizes = torch.tensor([len(x) for x in feats])\n        refs = torch.nn.utils.rnn.pad_sequence(refs, padding_value=config.INDEX_PAD_VALUE, batch_first=batch_first)\n    else:\n        ref_sizes = refs = None\n    if has_alis:", "ref_sizes<-unpadded"),
+        M("ali-pad-zero", D, "alis = torch.nn.utils.rnn.pad_sequence(alis, padding_value=config.INDEX_PAD_VALUE, batch_first=batch_first)",
+          "alis = torch.nn.utils.rnn.pad_sequence(alis, padding_value=0, batch_first=batch_first)", "pad(alis)"),
+        M("bucket-no-del", D, "yield batch\n                del batches[hash_]", "yield batch", "per-index-path"),
+        M("bucket-wrong-key", D, "batch = batches.setdefault(hash_, [])", "batch = batches.setdefault(batch_size, [])", "append-to-own-bucket"),
+        M("bucket-leftovers-always", D, "if not self.drop_incomplete:\n            for _, batch in", "if True:\n            for _, batch in", "leftovers-iff-kept"),
+        M("bucket-yield-early", D, "if batch_size == len(batch):\n                yield batch", "if batch_size <= len(batch) + 1:\n                yield batch", "yield-when-full"),
+        M("collate-shuffles", D, "if sort:\n        seq = sorted(seq, key=lambda x: x[0].size(0), reverse=True)\n    seq = list(zip(*seq))",
+          "if sort:\n        seq = sorted(seq, key=lambda x: x[0].size(0), reverse=True)\n    else:\n        seq = [seq[i] for i in torch.randperm(len(seq)).tolist()]\n    seq = list(zip(*seq))", "no-rng"),
+        M("seed-positional-again", D, "sort_batch, init_epoch, seed=seed, file_prefix=file_prefix", "sort_batch, init_epoch, seed, file_prefix=file_prefix", "G1"),
+        M("twin:rename-hash", D, "hash_", "bucket_id", "", -1, twin=True),
+    ]
+
+
+def selftest(ctx: Ctx):
+    from selftest.mutate import run_selftest
+    return run_selftest("C14", ctx.pkg.repo, _mutants(), floor=12)
+
+
+MANIFEST = dict(
+    level_text=(
+        "Static analysis (no execution) of the batching pipeline: argument binding of every loader constructor chain, "
+        "purity of the length prediction (it counts get_samples_for_epoch(sampler.epoch), never a stateful iteration), "
+        "producer/consumer item-shape protocol between the data sets and the bucket-parameter helper, typestate of "
+        "BucketBatchSampler.__iter__ over its per-index paths (one append to the own bucket, yield+delete paired, "
+        "leftovers iff kept), and def-use version rules of the collate functions (sizes from un-padded columns, whole-"
+        "item sorting before the unzip, pad values, ids from the same items). Necessary conditions of 'loses nothing / "
+        "len agrees / ids stay attached'; bucket purity over ties and quantile boundaries are not decided."),
+    level_note="Trusted: python ast; torch pad_sequence / DataLoader. F3, F4 (seed chain, prefix default) and F17 (bare-"
+               "tensor items bucketed by their first row) were found by these rules and repaired.",
+    technique="static analysis: argument binding, reaching definitions (def-use versions), path typestate, producer/consumer shape protocol",
+    design_ref="DESIGN.md section 4 C14",
+)
